@@ -29,6 +29,8 @@ SEQS = {
     "bad2": ([1, 1], {2: 2}),
     "bad3": ([3, 1, 0, 0], {2: 2}),
     "ok4": ([1, 1, 1, 1], {2: 2}),
+    "bad4": ([3, 1, 1, 1, 0], {3: 2}),
+    "bad5": ([2, 1, 1, 0], {2: 2}),
 }
 
 
@@ -251,7 +253,7 @@ def budget(tier):
 
 META = {
     "bounds": {
-        "quick": "sample(initial_hyg=...) on 3 initial hypergraphs with 2-3 hyperedges (labels 10,3,7,5 / 0..3), one MCMC step (two on the 2-hyperedge input), first sample; sample(deg_seq, dim_seq) on 7 sequence pairs with equal totals "
+        "quick": "sample(initial_hyg=...) on 3 initial hypergraphs with 2-3 hyperedges (labels 10,3,7,5 / 0..3), one MCMC step (two on the 2-hyperedge input), first sample; sample(deg_seq, dim_seq) on 9 sequence pairs with equal totals "
                  "(realisable by the greedy construction or not) with burn-in = thinning = 0; every Generator draw a "
                  "solver variable; acceptance probability real (concrete model numerics) or an arbitrary positive real; "
                  "truncated-Poisson weights arbitrary integers in [1,2] ([0,2] in the zero-dropping obligations); seed "
